@@ -957,23 +957,7 @@ func (c *Ctx) checkKeyMatcher() {
 
 func (c *Ctx) checkAugment() {
 	// the function that reads a group's own section: calls GetConfig via the Configger interface with a "refgroup.%s" key and switches on entry keys
-	var aug *ssa.Function
-	for _, f := range c.ModFns {
-		if pkgOf(f) != modPath+"/internal/refopts" {
-			continue
-		}
-		n := 0
-		allInstrs(f, func(in ssa.Instruction) {
-			if call, ok := in.(*ssa.Call); ok {
-				if cal := call.Call.StaticCallee(); cal != nil && refName(cal) == "Combine" {
-					n++
-				}
-			}
-		})
-		if n >= 4 {
-			aug = f
-		}
-	}
+	aug := c.augmentFn()
 	if aug == nil {
 		c.violate("C15.scope", "augment", token.NoPos, "", "no function folds a refgroup's gitconfig entries into its filter")
 		return
@@ -987,10 +971,8 @@ func (c *Ctx) checkAugment() {
 			if prefix == nil {
 				return
 			}
-			if sp, ok := c.resolve(prefix).(*ssa.Call); ok && calleeQ(&sp.Call) == "fmt.Sprintf" {
-				if f, ok := constStr(sp.Call.Args[0]); ok && f == "refgroup.%s" {
-					okSection = true
-				}
+			if c.isGroupSection(prefix) {
+				okSection = true
 			}
 		}
 	})
@@ -1007,48 +989,109 @@ func (c *Ctx) checkAugment() {
 		"excluderegexp": {"Exclude", "RegexpFilter"},
 	}
 	seen := map[string]bool{}
-	allInstrs(aug, func(in ssa.Instruction) {
-		call, ok := in.(*ssa.Call)
-		if !ok {
-			return
+	combOf := func(v ssa.Value) string {
+		if mi, ok := v.(*ssa.MakeInterface); ok {
+			v = mi.X
 		}
-		cal := call.Call.StaticCallee()
-		if cal == nil || cal.Name() != "Combine" {
-			return
-		}
-		lit := c.entryKeyLiteralAt(call.Block())
-		comb := ""
-		if u, ok := call.Call.Args[0].(*ssa.UnOp); ok {
+		if u, ok := v.(*ssa.UnOp); ok {
 			if g, ok := u.X.(*ssa.Global); ok {
-				comb = g.Name()
+				return g.Name()
 			}
 		}
-		// second argument: result of PrefixFilter/RegexpFilter on entry.Value
-		kind, valueOK := "", false
-		arg := c.resolve(call.Call.Args[2])
+		return ""
+	}
+	kindOf := func(v ssa.Value) (kind string, valueOK bool) {
 		var fc *ssa.Call
-		switch x := arg.(type) {
+		switch x := c.resolve(v).(type) {
 		case *ssa.Call:
 			fc = x
 		case *ssa.Extract:
 			fc, _ = x.Tuple.(*ssa.Call)
 		}
 		if fc != nil && fc.Call.StaticCallee() != nil {
-			kind = fc.Call.StaticCallee().Name()
+			kind = refName(fc.Call.StaticCallee())
 			if _, p := c.fieldPath(c.resolve(fc.Call.Args[0])); len(p) > 0 && p[len(p)-1] == "Value" {
 				valueOK = true
 			}
 		}
-		w, known := want[lit]
-		key := "augment:key:" + lit
-		switch {
-		case !known:
-			c.violate("C15.scope", key, call.Pos(), name, fmt.Sprintf("a filter is extended for the unexpected gitconfig key %q", lit))
-		case comb != w.comb || kind != w.kind || !valueOK:
-			c.violate("C15.scope", key, call.Pos(), name, fmt.Sprintf("refgroup.<g>.%s is folded with %s over %s(entry value ok=%v); the documented meaning is %s over %s(value)", lit, comb, kind, valueOK, w.comb, w.kind))
-		default:
-			seen[lit] = true
-			c.hold("C15.scope", key, call.Pos(), fmt.Sprintf("%s.Combine(filter, %s(entry.Value))", comb, kind))
+		return
+	}
+	literalOn := func(pred, to *ssa.BasicBlock) string {
+		if l := c.entryKeyLiteralAt(pred); l != "" {
+			return l
+		}
+		for _, f := range factsOnEdge(pred, to) {
+			cond, truth := normCond(f.Cond, f.Truth)
+			if cmp, ok := isCmp(cond, token.EQL, token.NEQ); ok && (cmp.Op == token.EQL) == truth {
+				if lit, ok := constStr(cmp.Y); ok {
+					if _, p := c.fieldPath(c.resolve(cmp.X)); len(p) > 0 && p[len(p)-1] == "Key" {
+						return lit
+					}
+				}
+			}
+		}
+		return ""
+	}
+	allInstrs(aug, func(in ssa.Instruction) {
+		call, ok := in.(*ssa.Call)
+		if !ok {
+			return
+		}
+		var recv, farg ssa.Value
+		if call.Call.IsInvoke() {
+			if mname(call.Call.Method) != "Combine" || len(call.Call.Args) != 2 {
+				return
+			}
+			recv, farg = call.Call.Value, call.Call.Args[1]
+		} else {
+			cal := call.Call.StaticCallee()
+			if cal == nil || refName(cal) != "Combine" || len(call.Call.Args) != 3 {
+				return
+			}
+			recv, farg = call.Call.Args[0], call.Call.Args[2]
+		}
+		type alt struct {
+			lit, comb, kind string
+			valueOK         bool
+		}
+		var alts []alt
+		// `combiner, f = Include, PrefixFilter(v)` per arm and one common
+		// Combine behind the switch: one alternative per incoming edge
+		var pb *ssa.BasicBlock
+		for _, v := range []ssa.Value{recv, farg} {
+			if phi, isPhi := v.(*ssa.Phi); isPhi {
+				pb = phi.Block()
+			}
+		}
+		if pb == nil {
+			k, vok := kindOf(farg)
+			alts = append(alts, alt{c.entryKeyLiteralAt(call.Block()), combOf(recv), k, vok})
+		} else {
+			for i, pred := range pb.Preds {
+				rv, fv := recv, farg
+				if phi, isPhi := recv.(*ssa.Phi); isPhi && phi.Block() == pb {
+					rv = phi.Edges[i]
+				}
+				if phi, isPhi := farg.(*ssa.Phi); isPhi && phi.Block() == pb {
+					fv = phi.Edges[i]
+				}
+				k, vok := kindOf(fv)
+				alts = append(alts, alt{literalOn(pred, pb), combOf(rv), k, vok})
+			}
+		}
+		for _, a := range alts {
+			lit, comb, kind, valueOK := a.lit, a.comb, a.kind, a.valueOK
+			w, known := want[lit]
+			key := "augment:key:" + lit
+			switch {
+			case !known:
+				c.violate("C15.scope", key, call.Pos(), name, fmt.Sprintf("a filter is extended for the unexpected gitconfig key %q", lit))
+			case comb != w.comb || kind != w.kind || !valueOK:
+				c.violate("C15.scope", key, call.Pos(), name, fmt.Sprintf("refgroup.<g>.%s is folded with %s over %s(entry value ok=%v); the documented meaning is %s over %s(value)", lit, comb, kind, valueOK, w.comb, w.kind))
+			default:
+				seen[lit] = true
+				c.hold("C15.scope", key, call.Pos(), fmt.Sprintf("%s.Combine(filter, %s(entry.Value))", comb, kind))
+			}
 		}
 	})
 	for k := range want {
@@ -1361,6 +1404,17 @@ func (c *Ctx) checkTreeEntryExact() {
 			}
 		}
 	}
+	// `name, rest, ok := strings.Cut(cursor, "\x00")`: the part before the NUL
+	if ex, isEx := v.(*ssa.Extract); isEx && ex.Index == 0 {
+		if call, isCall := ex.Tuple.(*ssa.Call); isCall {
+			if q := calleeQ(&call.Call); q == "strings.Cut" || q == "bytes.Cut" {
+				if sep, ok := c.sepByte(call.Call.Args[1]); ok && sep == 0 {
+					c.hold("C16.grammar", "tree:name-exact", call.Pos(), "Name = the part of the cursor before the NUL (Cut): the name bytes exactly as stored")
+					return
+				}
+			}
+		}
+	}
 	if okExact {
 		c.hold("C16.grammar", "tree:name-exact", posOf(sl), "Name = cursor[:index of NUL]: the name bytes exactly as stored")
 	} else {
@@ -1630,4 +1684,57 @@ func (c *Ctx) getConfigPrefix(call *ssa.Call) ssa.Value {
 		return call.Call.Args[1]
 	}
 	return nil
+}
+
+// augmentFn: the function that folds a group's own gitconfig section into
+// its filter: it lists the section `refgroup.<symbol>` (or, failing that
+// description, it is the refopts function with the four Combine calls).
+func (c *Ctx) augmentFn() *ssa.Function {
+	var bySection, byCombine *ssa.Function
+	for _, f := range c.ModFns {
+		if pkgOf(f) != modPath+"/internal/refopts" {
+			continue
+		}
+		n := 0
+		allInstrs(f, func(in ssa.Instruction) {
+			call, ok := in.(*ssa.Call)
+			if !ok {
+				return
+			}
+			if cal := call.Call.StaticCallee(); cal != nil && refName(cal) == "Combine" {
+				n++
+			}
+			if prefix := c.getConfigPrefix(call); prefix != nil {
+				if c.isGroupSection(prefix) {
+					bySection = rootFn(f)
+				}
+			}
+		})
+		if n >= 4 {
+			byCombine = f
+		}
+	}
+	if bySection != nil {
+		return bySection
+	}
+	return byCombine
+}
+
+// isGroupSection: v is the section name of one group, "refgroup." followed
+// by the group's symbol (Sprintf("refgroup.%s", sym) or "refgroup." + sym).
+func (c *Ctx) isGroupSection(v ssa.Value) bool {
+	switch x := c.resolve(v).(type) {
+	case *ssa.Call:
+		if calleeQ(&x.Call) == "fmt.Sprintf" {
+			f, ok := constStr(x.Call.Args[0])
+			return ok && f == "refgroup.%s"
+		}
+	case *ssa.BinOp:
+		if x.Op == token.ADD {
+			l, ok := constStr(x.X)
+			_, rightConst := constStr(x.Y)
+			return ok && l == "refgroup." && !rightConst
+		}
+	}
+	return false
 }
